@@ -39,6 +39,7 @@ type SliceV struct {
 	off, len, cap *Term
 	elem          types.Type
 	named         types.Type // static (possibly named) slice type when known
+	nilT          *Term      // symbolic "is nil" flag for slice inputs whose nil-ness is unknown
 }
 
 // SymArr is a symbolic-length backing store: per-leaf SMT arrays are modelled
